@@ -56,6 +56,13 @@ SELECT_ALPHA = [
     ("prewhere", ["prewhere", ["cmp", "=", f("t", "a"), raw(0)]]),
     ("group", ["with_totals"]),
     ("from2", ["from", U]),
+    # columns given by name (bound to the statement's first FROM table whatever is called in between)
+    ("group", ["groupby", [["name", "k"]]]),
+    ("order", ["orderby", [["name", "k"]], "asc"]),
+    ("select", ["select", [["name", "k"]]]),
+    # SQL Server only
+    ("top", ["top", 5]),
+    ("limit", ["fetch_next", 4]),
 ]
 INSERT_ALPHA = [
     ("columns", ["columns", ["a", "b"]]),
@@ -313,7 +320,7 @@ def sqlite_accepts(sql):
     db = _dbs.get("db")
     if db is None:
         db = sqlite3.connect(":memory:")
-        db.executescript("""CREATE TABLE t(id INTEGER PRIMARY KEY, a, b, s); CREATE TABLE u(id INTEGER, tid, x, y);
+        db.executescript("""CREATE TABLE t(id INTEGER PRIMARY KEY, a, b, s, k); CREATE TABLE u(id INTEGER, tid, x, y);
                             CREATE TABLE v(id INTEGER, x); CREATE TABLE ti(a PRIMARY KEY, b); CREATE TABLE t1(a);""")
         _dbs["db"] = db
     try:
@@ -403,6 +410,8 @@ def run_case(case):
     if kind == "update" and d != "mysql" and ({"order", "limit"} & set(fams)):
         return res  # UPDATE ... ORDER BY / LIMIT is MySQL syntax
     if "returning" in fams and not is_pg:
+        return res
+    if ("top" in fams or "fetch_next" in names) and d != "mssql":
         return res
     if kind == "insert_select" and "conflict" in fams:
         calls_ = [alpha[i][1][0] for i in comb if alpha[i][0] == "conflict"]
